@@ -391,12 +391,23 @@ def without_output_ellipsis(form):
     return dict(form, eq=lhs + "->" + rhs.replace("...", ""))
 
 
-KNOWN_REPROS = [
-    ("eq-spaces", {"kind": "str", "eq": "ab, bc -> ac", "shapes": [(2, 3), (3, 4)]}),
-    ("interleaved-implicit-order", {"kind": "inter", "subs": [[5, 1], [1, 2]], "out": None, "shapes": [(4, 2), (2, 3)]}),
-    ("ellipsis-size1-broadcast", {"kind": "str", "eq": "...a,...a->...", "shapes": [(2, 3), (1, 3)]}),
-    ("output-ellipsis-only", {"kind": "str", "eq": "ab->...ba", "shapes": [(2, 3)]}),
-]
+def load_corpus():
+    """corpus/C12/*.json: the repros of the findings (regression cases once fixed); run first"""
+    import glob
+    import json
+    import os
+    from vlib.core import VERIF
+    out = []
+    for fn in sorted(glob.glob(os.path.join(VERIF, "corpus", "C12", "*.json"))):
+        d = json.load(open(fn))
+        f = d["form"]
+        f["shapes"] = [tuple(sh) for sh in f["shapes"]]
+        if f["kind"] == "inter":
+            f["subs"] = [[Ellipsis if x == "..." else x for x in sub] for sub in f["subs"]]
+            if f["out"] is not None:
+                f["out"] = [Ellipsis if x == "..." else x for x in f["out"]]
+        out.append((d["key"], f))
+    return out
 
 
 def classify(form, feats, arrays, want):
@@ -435,6 +446,14 @@ def run(ctx):
 
     rng = ctx.rng
     IM = ["Base", "Parse"]
+    # which variant of the model the code must equal: a finding still `known:` -> pinned behaviour,
+    # no longer listed (turned into `fixed:`) -> the model with the proposed patch
+    fa = not ctx.known_key("eq-spaces")
+    fb = not ctx.known_key("interleaved-implicit-order")
+    fd = not ctx.known_key("output-ellipsis-only")
+    FX = "(mkFx %s %s %s)" % (coq(fa), coq(fb), coq(fd))
+    ctx.meta["model_variant"] = {"fx_spaces": fa, "fx_inter": fb, "fx_outell": fd}
+    ctx.coverage["model_variant"] = ctx.meta["model_variant"]
     cases = []          # (label, lhs, rhs) for ctx.coq_cases
     recs = []
 
@@ -473,7 +492,7 @@ def run(ctx):
         shapes = form["shapes"]
         if form["kind"] == "str":
             add_case("parse_equation_ellipses#%d" % k,
-                     "parse_equation_ellipses %s %s" % (S(form["eq"]), shapes_lit(shapes)),
+                     "parse_equation_ellipses_v %s %s %s" % (coq(fd), S(form["eq"]), shapes_lit(shapes)),
                      real_parse(form["eq"], shapes), dict(rec, function="parse_equation_ellipses"))
         else:
             args = call_args(form, [tuple(s) for s in shapes])
@@ -483,7 +502,8 @@ def run(ctx):
             except Exception:  # noqa
                 want = "None"
             add_case("convert_from_interleaved#%d" % k,
-                     "convert_from_interleaved %s %s" % (
+                     "convert_from_interleaved_v %s %s %s" % (
+                         coq(fb),
                          lst(sub_lit(s) for s in form["subs"]),
                          opt(None if form["out"] is None else sub_lit(form["out"]))),
                      want, dict(rec, function="convert_from_interleaved"))
@@ -499,7 +519,8 @@ def run(ctx):
         except Exception:  # noqa
             want = "None"
             front = None
-        add_case("einsum_front#%d" % k, "einsum_front %s" % args_lit(form), want, dict(rec, function="einsum front"))
+        add_case("einsum_front#%d" % k, "einsum_front_v %s %s" % (FX, args_lit(form)), want,
+                 dict(rec, function="einsum front"))
         # single operand fast paths
         if front is not None and len(front[0]) == 1:
             ctx.count("single_operand")
@@ -524,7 +545,7 @@ def run(ctx):
 
     for k, form in enumerate(mal):
         add_case("parse_equation_ellipses(malformed)#%d" % k,
-                 "parse_equation_ellipses %s %s" % (S(form["eq"]), shapes_lit(form["shapes"])),
+                 "parse_equation_ellipses_v %s %s %s" % (coq(fd), S(form["eq"]), shapes_lit(form["shapes"])),
                  real_parse(form["eq"], form["shapes"]), {"form": form, "function": "parse_equation_ellipses"})
         ctx.count("malformed")
 
@@ -653,16 +674,11 @@ def run(ctx):
     # ---------------- K2 / K3: NumpySpec vs numpy, model vs NumpySpec (inside Coq) --------
     def spec_terms(form):
         A = args_lit(form)
-        if form["kind"] == "str":
-            agree = "agrees_with_numpy %s %s" % (S(form["eq"]), shapes_lit(form["shapes"]))
-        else:
-            ops = lst("(%s, %s)" % (zs(sh), sub_lit(sub)) for sh, sub in zip(form["shapes"], form["subs"]))
-            agree = "agrees_with_numpy_inter %s %s" % (ops, opt(None if form["out"] is None else sub_lit(form["out"])))
-        return "(np_parse_args %s, np_out_shape %s, (%s), front_consistent %s)" % (A, A, agree, A)
+        return "(np_parse_args %s, np_out_shape %s, agrees_args_v %s %s, front_consistent_v %s %s)" % (A, A, FX, A, FX, A)
 
     allforms = [(f, ft, False) for f, ft in forms] + [(f, set(), True) for f in mal]
-    for key, f in KNOWN_REPROS:
-        allforms.append((f, {"repro:" + key}, False))
+    for key, f in load_corpus():
+        allforms.insert(0, (f, {"repro:" + key}, False))
     chunks = [allforms[i:i + 150] for i in range(0, len(allforms), 150)]
 
     def eval_chunk(ch):
